@@ -307,12 +307,14 @@ def run(pid, tier, seed, t0):
             all_viol += [v for v in viol if v["tag"].startswith(PREFIX)]
             os.remove(part)
 
+    connector = __import__("x_connector").stage(pid, tier, seed, verdict)   # Connector.tla: after a drop nothing is polled, everything is released
     code, unlisted = verdict.finish()
     cov = action_coverage(cv.out)
     never = sorted(a for a, (dist, taken) in cov.items() if taken == 0)
     seen, by_stage, missing = class_table(rep, wk)
     inv, prop = cfg_props(MC[tier])
     coverage = {
+        "connector_model": connector,
         "states": mc.distinct, "transitions": mc.generated, "depth": mc.depth,
         "traces_validated_against_impl": rep["behaviours"] + wk["runs"],
         "samples": samples,
@@ -356,6 +358,16 @@ def run(pid, tier, seed, t0):
 def replay(pid, path):
     """Re-executes the recorded action sequence of a violation on the current tree and re-runs the monitor."""
     obj = json.load(open(path))
+    _rk = obj.get("replay", {}).get("kind") if isinstance(obj.get("replay"), dict) else None
+    if _rk == "connector-trace":
+        return __import__("x_connector").replay(pid, obj)
+    if _rk == "body-ops":
+        return __import__("x_body").replay(pid, obj)
+    if _rk == "tcpcall-row":
+        _c = __import__("x_tcpcall").replay(pid, obj)
+        if _c:
+            print("VIOLATION property=%s replay=%s" % (pid, path), flush=True)
+        return _c
     recs = obj["replay"]["records"]
     d = vlib.outdir(pid)
     at = obj["replay"].get("at", 0)
